@@ -409,7 +409,19 @@ pub fn profile_digest_line(ctx: &crate::props::Ctx, i: u64) -> String {
     let mut r = Rng::new(rseed);
     let buggy = r.chance(1, 4);
     let family = r.below(12);
-    let base = if family == 0 {
+    let base = if family == 2 || family == 3 {
+        // every producer-bug / scale family, at moderate sizes: arithmetic that only a long or
+        // unusual but well-formed sequence reaches must not depend on the build profile either
+        let slow = ["tilemap-huge-extent", "deflate-bomb", "bomb-with-links"];
+        let bugs: Vec<&&str> = crate::spec::BUGS.iter().filter(|b| !slow.contains(*b)).collect();
+        let bug = **r.pick(&bugs);
+        let scale = match bug {
+            "many-palette-packets" | "many-tags" | "many-layers" | "deep-nesting" | "link-chain" => *r.pick(&[3usize, 300, 2500]),
+            "many-frames-high-layer" => 20,
+            _ => 1,
+        };
+        crate::props::gen_special(rseed, bug, scale, &mut r)
+    } else if family == 0 {
         // hot-reload family: sprites of one of two shapes that differ only in palette colours and
         // pixel values; anything keyed on buffer addresses or shapes that outlives a sprite shows
         // up as a digest that depends on which runs preceded this one in the process
